@@ -177,45 +177,46 @@ example :
 
 /-! ## the setup chain of `Manu.run` -/
 
-/-- **chain_runs_all** / order, as the code has it: whatever the steps do (return, fail, raise), the loop calls the
-steps of `Params.objects(setup)` — the chain with *repeated names removed* — each once, in order, with tag index `i`. -/
-theorem chain_runs_all {σ : Type} (known : String → Bool) (f : σ → String → Nat → Outcome × σ) (env : σ)
-    (chain : List String) (hk : ∀ st ∈ objects chain, known st = true) :
-    (runChain known f env chain).executed = (objects chain).zipIdx := by
-  simp only [runChain]
-  exact runChainFrom_executed known f (objects chain) env 0 0 hk
-
-/-- **chain_order_kept** — for chains that do not repeat a step: every step of the chain is called exactly once, in
-the given order, and a failing or raising step does not prevent the later ones (`f` is arbitrary).
-Partial: the full statement (every chain) is false for the code as it is, see `repeated_step_dropped`. -/
-theorem chain_order_kept_partial {σ : Type} (known : String → Bool) (f : σ → String → Nat → Outcome × σ) (env : σ)
-    (chain : List String) (hk : ∀ st ∈ chain, known st = true) (hnd : chain.Nodup) :
+/-- **chain_order_kept / chain_runs_all**: whatever the steps do (return, fail, raise — `f` is arbitrary), the loop
+calls every step of the chain exactly once, in the given order, the `i`-th with tag index `i`; repeated steps are
+called as often as they occur.  A failing step does not prevent the later ones. -/
+theorem chain_order_kept {σ : Type} (known : String → Bool) (f : σ → String → Nat → Outcome × σ) (env : σ)
+    (chain : List String) (hk : ∀ st ∈ chain, known st = true) :
     (runChain known f env chain).executed = chain.zipIdx := by
-  have := chain_runs_all known f env chain (by rw [objects_of_nodup chain hnd]; exact hk)
-  rw [this, objects_of_nodup chain hnd]
+  simp only [runChain]
+  exact runChainFrom_executed known f chain env 0 0 hk
 
-/-- FINDING (`chain-repeated-step-dropped`): `run, boot, run` — the second `run` is never called. -/
-theorem repeated_step_dropped :
+/-- in particular: as many calls as the chain has steps, and the `k`-th call is the `k`-th step -/
+theorem chain_runs_all {σ : Type} (known : String → Bool) (f : σ → String → Nat → Outcome × σ) (env : σ)
+    (chain : List String) (hk : ∀ st ∈ chain, known st = true) :
+    (runChain known f env chain).executed.length = chain.length ∧
+    (runChain known f env chain).executed.map (·.1) = chain := by
+  rw [chain_order_kept known f env chain hk]
+  simp
+
+/-- regression (before 3361dd0 the chain was `Params.objects(setup)`): `run, boot, run` ran `run, boot` only; now all
+three calls are made -/
+example : (runChainFrom (fun _ => true) (fun (_ : Unit) _ _ => (Outcome.ret 0, ())) () 0 0 (objects ["run", "boot", "run"])).executed
+      = [("run", 0), ("boot", 1)] ∧
     (runChain (fun _ => true) (fun (_ : Unit) _ _ => (Outcome.ret 0, ())) () ["run", "boot", "run"]).executed
-      = [("run", 0), ("boot", 1)] := by decide
+      = [("run", 0), ("boot", 1), ("run", 2)] := by decide
 
 /-- **chain_fails_iff_any**: the return code is 1 exactly when some executed step returned something else than
 `None`/0 or raised; otherwise 0.  (All chains; induction on the list.) -/
 theorem chain_fails_iff_any {σ : Type} (known : String → Bool) (f : σ → String → Nat → Outcome × σ) (env : σ)
-    (chain : List String) (hk : ∀ st ∈ objects chain, known st = true) :
+    (chain : List String) (hk : ∀ st ∈ chain, known st = true) :
     (runChain known f env chain).ret = .ok (if (runChain known f env chain).outcomes.any Outcome.fails then 1 else 0) ∧
-    (runChain known f env chain).outcomes.length = (objects chain).length := by
+    (runChain known f env chain).outcomes.length = chain.length := by
   simp only [runChain]
-  exact ⟨runChainFrom_ret known f (objects chain) env 0 0 hk, runChainFrom_outcomes_length known f (objects chain) env 0 0 hk⟩
+  exact ⟨runChainFrom_ret known f chain env 0 0 hk, runChainFrom_outcomes_length known f chain env 0 0 hk⟩
 
 /-- a step name that is not a tool escapes the loop as `AttributeError` (the `getattr` is outside the `try`): the steps
 before it were run, those after it are not -/
 theorem unknown_step_aborts {σ : Type} (known : String → Bool) (f : σ → String → Nat → Outcome × σ) (env : σ)
-    (pre post : List String) (bad : String) (hpre : ∀ st ∈ pre, known st = true) (hbad : known bad = false)
-    (hnd : (pre ++ bad :: post).Nodup) :
+    (pre post : List String) (bad : String) (hpre : ∀ st ∈ pre, known st = true) (hbad : known bad = false) :
     (runChain known f env (pre ++ bad :: post)).ret = .error .attributeError ∧
     (runChain known f env (pre ++ bad :: post)).executed = pre.zipIdx := by
-  simp only [runChain, objects_of_nodup _ hnd]
+  simp only [runChain]
   exact runChainFrom_unknown known f pre bad post env 0 0 hpre hbad
 
 /-- a command line that does not parse: return code 1, nothing executed -/
@@ -223,51 +224,57 @@ theorem bad_command_line {σ : Type} (known : String → Bool) (f : σ → Strin
     (chain : List String) : (manuRun false known f env chain).ret = .ok 1 ∧ (manuRun false known f env chain).executed = [] := by
   simp [manuRun]
 
-/-- What a built-in step reports to the chain loop: it counts as failed exactly when it raised, or it is a
-`@with_cartesian_graph` step and some test result is bad. -/
+/-- **step_failure_reported** — a failing step makes the chain report failure: every built-in step of the table
+(the reusing `collect`, `create`, `clean` included) counts as failed for `Manu.run` exactly when it raised or one of
+its tests ended badly. -/
 theorem step_failure_reported (t : ToolSpec) (raised allOk : Bool) :
-    (stepOutcome t raised allOk).fails = (raised || (t.returnsStatus && !allOk)) := by
-  cases raised <;> cases allOk <;> cases h : t.returnsStatus <;> simp [stepOutcome, Outcome.fails, h]
-
-/-- **a failing step makes the chain report failure** — for the steps that return their status.
-Partial: false for `collect`, `create`, `clean` (`reuse_step_failure_not_reported`). -/
-theorem step_failure_reported_partial (t : ToolSpec) (raised allOk : Bool) (h : t.returnsStatus = true) :
     (stepOutcome t raised allOk).fails = (raised || !allOk) := by
-  rw [step_failure_reported, h]; simp
+  cases raised <;> cases allOk <;> simp [stepOutcome, Outcome.fails]
 
-/-- FINDING (`reuse-step-failure-not-reported`): `create` whose tests fail returns `None`, and the chain
-`create, check` reports success -/
-theorem reuse_step_failure_not_reported :
-    (toolSpec "create").map (fun t => (stepOutcome t false false).fails) = some false ∧
-    (runChain (fun _ => true) (builtinStep (fun i => (false, i != 0))) [] ["create", "check"]).ret = .ok 0 := by decide
+/-- … lifted to the chain: with the built-in steps, `Manu.run` returns 1 iff some step of the chain that is in the
+table raised or had a bad result, or a step outside the table (`noop`, …) raised. -/
+theorem builtin_chain_retcode (known : String → Bool) (beh : Nat → Bool × Bool) (pd : Dict) (chain : List String)
+    (hk : ∀ st ∈ chain, known st = true) (st : String) (i : Nat) :
+    ((builtinStep beh pd st i).1.fails = match toolSpec st with
+      | some _ => ((beh i).1 || !(beh i).2)
+      | none => (beh i).1) ∧
+    (runChain known (builtinStep beh) pd chain).ret =
+      .ok (if (runChain known (builtinStep beh) pd chain).outcomes.any Outcome.fails then 1 else 0) := by
+  refine ⟨?_, (chain_fails_iff_any known _ pd chain hk).1⟩
+  unfold builtinStep
+  cases ht : toolSpec st with
+  | none => cases h : (beh i).1 <;> simp [Outcome.fails]
+  | some t => simp [step_failure_reported]
 
-/-- every step of the table except the three reusing ones returns its status -/
-theorem returns_status_iff (name : String) (t : ToolSpec) (h : toolSpec name = some t) :
-    t.returnsStatus = !(name == "collect" || name == "create" || name == "clean") := by
-  unfold toolSpec at h
-  split at h <;> simp at h <;> subst h <;> decide
+/-- regression (before 5f9a82c): `create` whose tests failed returned `None`, so `create, check` reported success;
+now the chain returns 1 -/
+example :
+    (toolSpec "create").map (fun t => (stepOutcomePreFix t false false).fails) = some false ∧
+    (runChain (fun _ => true) (builtinStepPreFix (fun i => (false, i != 0))) [] ["create", "check"]).ret = .ok 0 ∧
+    (runChain (fun _ => true) (builtinStep (fun i => (false, i != 0))) [] ["create", "check"]).ret = .ok 1 := by decide
 
-/-- **the command line dictionary is the same for every step** — when no step raises.
-Partial: false after a raising `collect`/`create`/`clean` (`reuse_params_leak`). -/
-theorem chain_env_unchanged_partial (known : String → Bool) (beh : Nat → Bool × Bool) (pd : Dict) (chain : List String)
-    (hnr : ∀ i, (beh i).1 = false) : ∀ e ∈ envTrace known (builtinStep beh) pd 0 (objects chain), e = pd := by
+/-- **chain_env_unchanged** — the command line dictionary is the same for every step of the chain, whatever the steps
+do (fail, raise): a reusing step's temporary parameters never reach a later step. -/
+theorem chain_env_unchanged (known : String → Bool) (beh : Nat → Bool × Bool) (pd : Dict) (chain : List String) :
+    ∀ e ∈ envTrace known (builtinStep beh) pd 0 chain, e = pd := by
   apply envTrace_const
   intro st j
   simp only [builtinStep]
-  split
-  · rfl
-  · simp [reuseEnvAfter, hnr j]
+  split <;> rfl
 
-/-- FINDING (`step-params-leak`): `clean` raises (its environment does not start); the following `unset` starts with
+/-- regression (before 79572ad): `clean` raises (its environment does not start); the following `unset` started with
 `unset_state_images=root unset_mode_images=fa pool_scope=own` in the command line dictionary -/
-theorem reuse_params_leak :
+example :
+    (envTrace (fun _ => true) (builtinStepPreFix (fun i => (i == 0, true))) [("nets", "net1")] 0 ["clean", "unset"]).map
+        (fun d => (dget d "unset_state_images", dget d "unset_mode_images", dget d "pool_scope"))
+      = [(none, none, none), (some "root", some "fa", some "own")] ∧
     (envTrace (fun _ => true) (builtinStep (fun i => (i == 0, true))) [("nets", "net1")] 0 ["clean", "unset"]).map
         (fun d => (dget d "unset_state_images", dget d "unset_mode_images", dget d "pool_scope"))
-      = [(none, none, none), (some "root", some "fa", some "own")] := by decide
+      = [(none, none, none), (none, none, none)] := by decide
 
-/-- non-vacuity of the chain theorems: a chain with a failing first and a raising third step -/
-example : let r := runChain (fun s => s != "nosuch") (builtinStep (fun i => (i == 2, i != 0))) [] ["check", "noop", "boot", "get"]
-    r.ret = .ok 1 ∧ r.executed = [("check", 0), ("noop", 1), ("boot", 2), ("get", 3)] ∧
+/-- non-vacuity of the chain theorems: a chain with a failing first and a raising third step, and a repeated step -/
+example : let r := runChain (fun s => s != "nosuch") (builtinStep (fun i => (i == 2, i != 0))) [] ["check", "noop", "boot", "check"]
+    r.ret = .ok 1 ∧ r.executed = [("check", 0), ("noop", 1), ("boot", 2), ("check", 3)] ∧
       r.outcomes = [.ret 1, .retNone, .raised, .ret 0] := by decide
 
 end I2N.Props.C20
